@@ -109,9 +109,13 @@ def _authority(draw):
     elif kind == "ipv6":
         a["text"] = "[" + draw(st.sampled_from(["::1", "0:0:0:0:0:0:0:1", "2001:DB8::1", "2001:db8:0:0:0:0:0:1", "::ffff:1.2.3.4", "fe80::1", "::", "FF02::FD"])) + "]"
     else:
-        a["text"] = "[" + draw(st.sampled_from(["fe80::1", "FE80::2", "ff02::fd"])) + "%25" + draw(st.sampled_from(["eth0", "Eth0", "1", "wlan-0"])) + "]"
+        a["text"] = "[" + draw(st.sampled_from(["fe80::1", "FE80::2", "ff02::fd"])) + "%25" + draw(_zone) + "]"
     a["port"] = draw(st.sampled_from([None, None, "", "0", "5683", "5684", "65535", "05683", "1"]))
     return a
+
+
+# zone identifiers: interface names and indices, among them ones that look like percent escapes once "%25" is in front
+_zone = st.one_of(st.sampled_from(["eth0", "Eth0", "1", "wlan-0", "en.1", "25", "250", "25eth0", "2", "41", "2541"]), st.text(alphabet="abcefxyz0123456789-._", min_size=1, max_size=6))
 
 
 @st.composite
@@ -492,7 +496,7 @@ def _hostport_case(draw):
     elif kind == "ipv6":
         h = draw(st.sampled_from(["::1", "2001:db8::1", "::", "fe80::1", "::ffff:1.2.3.4", "2001:db8:0:0:0:0:0:1"]))
     else:
-        h = draw(st.sampled_from(["fe80::1", "ff02::fd"])) + "%" + draw(st.sampled_from(["eth0", "Eth0", "1", "wlan-0", "en.1"]))
+        h = draw(st.sampled_from(["fe80::1", "ff02::fd"])) + "%" + draw(_zone)
     return {"host": h, "port": draw(st.one_of(st.none(), st.sampled_from([0, 1, 5683, 65535]), st.integers(0, 65535))), "bracketed": draw(st.booleans())}
 
 
